@@ -13,9 +13,11 @@
 (* semantics, so an intercepted operator between two literals is routed to *)
 (* the hook like any other.                                                *)
 (*                                                                         *)
-(* The hook of the conformance harness calls the native operator and adds  *)
-(* 1000 to its result (so an application that was not routed is visible in *)
-(* the rendered value); the same perturbation is modelled here.            *)
+(* The semantics is SandboxOpsSem.  The hook of the conformance harness     *)
+(* (call_binop / call_unop of a subclass) calls the native operator and    *)
+(* adds 1000 to its result (so an application that was not routed is       *)
+(* visible in the rendered value): callback 1 for every operator here.     *)
+(* Several environments with callback tables of their own: SandboxOpsEnvs. *)
 (*                                                                         *)
 (* Values are integers with a flag `f` = "is a Python float" (true         *)
 (* division produces floats; only exact quotients are explored so that     *)
@@ -32,120 +34,17 @@
 (* result values and status; the harness renders the real template in a    *)
 (* SandboxedEnvironment subclass with that intercepted set and compares.   *)
 (***************************************************************************)
-EXTENDS Integers, Sequences, FiniteSets, TLC, Json, IOUtils
+EXTENDS SandboxOpsSem, Json, IOUtils
 
 In == JsonDeserialize(IOEnv.CASES_FILE)
 Cases == In.cases
-SetOf(s) == {s[k] : k \in 1..Len(s)}
 NSub == Len(In.subsets)
-Sub(k) == [b |-> SetOf(In.subsets[k].b), u |-> SetOf(In.subsets[k].u)]
+Sub(k) == [b |-> SetOf(In.subsets[k].b), u |-> SetOf(In.subsets[k].u),
+           tb |-> [op \in BinOps |-> 1], tu |-> [op \in UnOps |-> 1]]
 
 VARIABLES cid, sid, done, res
 
-BinOps == {"+", "-", "*", "/", "//", "%", "**"}
-UnOps == {"+", "-"}
-
-Val(n, f) == [n |-> n, f |-> f]
-Big(x) == x.n > 30000 \/ x.n < -30000
-Truthy(x) == x.n # 0
-
-(* Python's floor division and modulo, written for either sign of the divisor
-   (TLC's \div is only relied upon for a positive divisor) *)
-FloorDiv(a, b) == IF b > 0 THEN a \div b ELSE (-a) \div (-b)
-Mod(a, b) == a - b * FloorDiv(a, b)
-
-RECURSIVE Pow(_, _)
-Pow(a, b) == IF b = 0 THEN 1 ELSE a * Pow(a, b - 1)
-
-(* the native operators: [v, st], st = "ok" | "ZeroDivisionError" | "skip" (outside
-   the explored value space: inexact quotient, negative exponent, large numbers,
-   float zero whose sign would matter) *)
-NativeBin(op, a, b) ==
-    LET f == a.f \/ b.f
-        R(n, ff) == IF ff /\ n = 0 THEN [v |-> Val(0, ff), st |-> "skip"]
-                    ELSE [v |-> Val(n, ff), st |-> "ok"]
-    IN  IF Big(a) \/ Big(b) THEN [v |-> a, st |-> "skip"]
-        ELSE CASE op = "+"  -> R(a.n + b.n, f)
-               [] op = "-"  -> R(a.n - b.n, f)
-               [] op = "*"  -> R(a.n * b.n, f)
-               [] op = "/"  -> IF b.n = 0 THEN [v |-> a, st |-> "ZeroDivisionError"]
-                               ELSE IF Mod(a.n, b.n) # 0 THEN [v |-> a, st |-> "skip"]
-                               ELSE R(FloorDiv(a.n, b.n), TRUE)
-               [] op = "//" -> IF b.n = 0 THEN [v |-> a, st |-> "ZeroDivisionError"]
-                               ELSE R(FloorDiv(a.n, b.n), f)
-               [] op = "%"  -> IF b.n = 0 THEN [v |-> a, st |-> "ZeroDivisionError"]
-                               ELSE R(Mod(a.n, b.n), f)
-               [] op = "**" -> IF b.n < 0 \/ b.n > 6 \/ a.n > 30 \/ a.n < -30
-                               THEN [v |-> a, st |-> "skip"]
-                               ELSE R(Pow(a.n, b.n), f)
-
-NativeUn(op, a) ==
-    IF Big(a) THEN [v |-> a, st |-> "skip"]
-    ELSE IF op = "-" THEN [v |-> Val(0 - a.n, a.f), st |-> "ok"]
-    ELSE [v |-> a, st |-> "ok"]
-
-Perturb(x) == Val(x.n + 1000, x.f)
-
-(* one executed application: appended to `apps` with the flag h = "went through the hook" *)
-ApplyBin(op, a, b, sub, apps) ==
-    LET h == op \in sub.b
-        apps2 == Append(apps, [op |-> op, u |-> FALSE, l |-> a, r |-> b, h |-> h])
-        nat == NativeBin(op, a, b)
-    IN  IF nat.st # "ok" THEN [v |-> a, apps |-> apps2, st |-> nat.st]
-        ELSE [v |-> IF h THEN Perturb(nat.v) ELSE nat.v, apps |-> apps2, st |-> "ok"]
-
-ApplyUn(op, a, sub, apps) ==
-    LET h == op \in sub.u
-        apps2 == Append(apps, [op |-> op, u |-> TRUE, l |-> a, r |-> a, h |-> h])
-        nat == NativeUn(op, a)
-    IN  IF nat.st # "ok" THEN [v |-> a, apps |-> apps2, st |-> nat.st]
-        ELSE [v |-> IF h THEN Perturb(nat.v) ELSE nat.v, apps |-> apps2, st |-> "ok"]
-
-RECURSIVE Ev(_, _, _, _)
-Ev(e, env, sub, apps) ==
-    CASE e.t = "c" -> [v |-> Val(e.v, FALSE), apps |-> apps, st |-> "ok"]
-      [] e.t = "v" -> [v |-> Val(env[e.n], FALSE), apps |-> apps, st |-> "ok"]
-      [] e.t = "b" ->
-           LET L == Ev(e.l, env, sub, apps) IN
-           IF L.st # "ok" THEN L
-           ELSE LET R == Ev(e.r, env, sub, L.apps) IN
-                IF R.st # "ok" THEN R ELSE ApplyBin(e.op, L.v, R.v, sub, R.apps)
-      [] e.t = "u" ->
-           LET A == Ev(e.e, env, sub, apps) IN
-           IF A.st # "ok" THEN A ELSE ApplyUn(e.op, A.v, sub, A.apps)
-      [] e.t = "if" ->
-           LET C == Ev(e.c, env, sub, apps) IN
-           IF C.st # "ok" THEN C
-           ELSE IF Truthy(C.v) THEN Ev(e.a, env, sub, C.apps) ELSE Ev(e.b, env, sub, C.apps)
-      [] e.t = "and" ->
-           LET L == Ev(e.l, env, sub, apps) IN
-           IF L.st # "ok" \/ ~Truthy(L.v) THEN L ELSE Ev(e.r, env, sub, L.apps)
-      [] e.t = "or" ->
-           LET L == Ev(e.l, env, sub, apps) IN
-           IF L.st # "ok" \/ Truthy(L.v) THEN L ELSE Ev(e.r, env, sub, L.apps)
-
-(* loop filter: evaluate for every item, keep the items whose value is true *)
-RECURSIVE Loop(_, _, _, _, _, _)
-Loop(e, env, sub, items, apps, out) ==
-    IF items = <<>> THEN [out |-> out, apps |-> apps, st |-> "ok"]
-    ELSE LET R == Ev(e, [env EXCEPT !.i = Head(items)], sub, apps) IN
-         IF R.st # "ok" THEN [out |-> out, apps |-> R.apps, st |-> R.st]
-         ELSE Loop(e, env, sub, Tail(items), R.apps,
-                   IF Truthy(R.v) THEN Append(out, Val(Head(items), FALSE)) ELSE out)
-
-RunCase(c, sub) ==
-    IF c.w = "loop" THEN Loop(c.e, c.vars, sub, c.items, <<>>, <<>>)
-    ELSE LET R1 == Ev(c.e, c.vars, sub, <<>>) IN
-         IF R1.st # "ok" \/ c.w = "once"
-         THEN [out |-> IF R1.st = "ok" THEN <<R1.v>> ELSE <<>>, apps |-> R1.apps, st |-> R1.st]
-         ELSE LET R2 == Ev(c.e, c.vars, sub, R1.apps) IN
-              [out |-> IF R2.st = "ok" THEN <<R1.v, R2.v>> ELSE <<R1.v>>, apps |-> R2.apps, st |-> R2.st]
-
 Result == RunCase(Cases[cid], Sub(sid))
-HookLog(r) == SelectSeq(r.apps, LAMBDA a : a.h)
-
-NoRes == [out |-> <<>>, apps |-> <<>>, st |-> "none"]
-
 Init == cid \in 1..Len(Cases) /\ sid \in 1..NSub /\ done = FALSE /\ res = NoRes
 
 Emit ==
@@ -161,15 +60,12 @@ Spec == Init /\ [][Next]_<<cid, sid, done, res>>
 
 (* the hook sees all and only the executed applications of intercepted operators,
    with their operands *)
-C20_AllAndOnlyIntercepted ==
-    LET r == res sub == Sub(sid) IN
-    \A k \in 1..Len(r.apps) :
-        r.apps[k].h = (IF r.apps[k].u THEN r.apps[k].op \in sub.u ELSE r.apps[k].op \in sub.b)
+C20_AllAndOnlyIntercepted == AllAndOnlyIntercepted(res, Sub(sid))
 
 (* with nothing intercepted there is no hook event and no perturbation; with an operator
    that does not occur in the executed applications intercepted, nothing changes *)
 C20_IrrelevantInterceptionIsInvisible ==
     LET r == res IN
-    (done /\ HookLog(r) = <<>> /\ Sub(sid) # [b |-> {}, u |-> {}]) =>
-        LET r0 == RunCase(Cases[cid], [b |-> {}, u |-> {}]) IN r.out = r0.out /\ r.st = r0.st
+    (done /\ HookLog(r) = <<>> /\ (Sub(sid).b # {} \/ Sub(sid).u # {})) =>
+        LET r0 == RunCase(Cases[cid], [Sub(sid) EXCEPT !.b = {}, !.u = {}]) IN r.out = r0.out /\ r.st = r0.st
 =============================================================================
